@@ -270,6 +270,15 @@ Definition infer_fun (fuel:nat) (fd:fundef) : outcome :=
       end
   end.
 
+(** annotate parameter number [i] with the type [a] *)
+Fixpoint set_ann (ps:list (nat * option ty)) (i:nat) (a:ty) : list (nat * option ty) :=
+  match ps, i with
+  | [], _ => []
+  | (x,_)::r, O => (x, Some a) :: r
+  | p::r, S j => p :: set_ann r j a
+  end.
+Definition annotate (fd:fundef) (i:nat) (a:ty) : fundef := mkFun (set_ann (f_params fd) i a) (f_body fd).
+
 (** Not part of the property: does the body contain a type that neither the signature nor an
     annotation determines (e.g. the parameter of a lambda passed for an unused argument)?  fc hoists
     such variables to extra type parameters (collectTVarLfd also walks the body); the property only
